@@ -57,6 +57,7 @@ open_("C11", ["C11|recovered-state|*|S/*|*"],
 open_("C11", ["C11|recovered-state|*@powerloss|K*/*|in-merge", "C11|recovered-state|*@powerloss|K*/*|in-merge,*", "C11|recovered-state|*@powerloss|K*/*|*,in-merge"],
       "Merge unlinks the merged segment files without ever syncing the directory: after a power loss during Merge an older segment can reappear while a newer one, which held the tombstone of a key (or the SRem of a member), stays removed, so a deleted key comes back (the property counts an unsynced removal as one that may be undone)")
 fixed("C12", "6479459", "a write that failed after some bytes had reached the file left them behind the write offset; when the next committed entry did not fit, the segment was sealed with that debris and the next Open failed with a crc error (also C09)", "C12|open-error-after-fault|crc-error@write .dat|K*/F|fault")
+fixed("C12", "aaed9cd", "a create/truncate error of the next segment during rotation left db.ActiveFile nil: the transaction failed, and the next Commit and Close panicked (nil pointer dereference), so the database could be neither used nor closed", "C12|close-failed-after-fault|Close@create .dat|*|fault")
 open_("C12", ["C12|effect-on-later-commit|*|S/*|fault"],
       SP + "a record write or sync that fails leaves the key position map (BPTreeKeyEntryPosMap) pointing at the entry that was not written; after the next rotation the sparse index of the sealed segment refers to a hole and Get/GetAll/scans panic with a nil entry")
 open_("C12", ["C12|effect-in-process|*|*|fault", "C12|effect-after-reopen|*|S/*|fault"],
